@@ -208,6 +208,7 @@ pub enum Own {
     Rosen2 { a: f64, b: f64 },
     RosenN,
     Student { nu: f64 },
+    StudentC { nu: f64, c: f64 }, // the same with an additive constant (an unnormalised log-likelihood of a large data set)
     HalfLine, // log p = sum ln x - x  (NaN for x < 0, -inf at 0)
     BoxU,     // uniform on the open box (0,1)^d: 0 inside, -inf outside; gradient 0
 }
@@ -223,6 +224,7 @@ impl Own {
             Own::Rosen2 { a, b } => -((a - x[0]).powi(2) + b * (x[1] - x[0] * x[0]).powi(2)),
             Own::RosenN => -(0..x.len() - 1).map(|i| 100.0 * (x[i + 1] - x[i] * x[i]).powi(2) + (1.0 - x[i]).powi(2)).sum::<f64>(),
             Own::Student { nu } => x.iter().map(|v| -(nu + 1.0) / 2.0 * (1.0 + v * v / nu).ln()).sum(),
+            Own::StudentC { nu, c } => c + x.iter().map(|v| -(nu + 1.0) / 2.0 * (1.0 + v * v / nu).ln()).sum::<f64>(),
             Own::HalfLine => x.iter().map(|v| v.ln() - v).sum(),
             Own::BoxU => if x.iter().all(|v| *v > 0.0 && *v < 1.0) { 0.0 } else { f64::NEG_INFINITY },
         }
@@ -243,7 +245,7 @@ impl Own {
                     own + prev
                 }).collect()
             }
-            Own::Student { nu } => x.iter().map(|v| -(nu + 1.0) * v / (nu + v * v)).collect(),
+            Own::Student { nu } | Own::StudentC { nu, .. } => x.iter().map(|v| -(nu + 1.0) * v / (nu + v * v)).collect(),
             Own::HalfLine => x.iter().map(|v| 1.0 / v - 1.0).collect(),
             Own::BoxU => vec![0.0; x.len()],
         }
@@ -252,6 +254,17 @@ impl Own {
 #[derive(Clone)]
 pub struct StudentT {
     pub nu: f64,
+}
+/// Student-t plus a large additive constant: H is of the order of the constant, the energy *difference* is O(1).
+#[derive(Clone)]
+pub struct StudentC {
+    pub nu: f64,
+    pub c: f64,
+}
+impl<T: Float, B: AutodiffBackend> BatchedGradientTarget<T, B> for StudentC {
+    fn unnorm_logp_batch(&self, p: Tensor<B, 2>) -> Tensor<B, 1> {
+        (p.clone() * p).div_scalar(self.nu).add_scalar(1.0).log().mul_scalar(-(self.nu + 1.0) / 2.0).sum_dim(1).squeeze::<1>(1).add_scalar(self.c)
+    }
 }
 impl<T: Float, B: AutodiffBackend> BatchedGradientTarget<T, B> for StudentT {
     fn unnorm_logp_batch(&self, p: Tensor<B, 2>) -> Tensor<B, 1> {
@@ -441,6 +454,11 @@ pub fn record(args: &[String]) {
             record_run::<B64, f64, _>(&mut out, "student/f64", Own::Student { nu: 3.0 }, StudentT { nu: 3.0 }, si.clone(), eps, l, steps, seed + 300 + c as u64, 1e-7, &mut moved);
             record_run::<B32, f32, _>(&mut out, "student/f32", Own::Student { nu: 3.0 }, StudentT { nu: 3.0 }, si.clone(), eps, l, steps, seed + 300 + c as u64, 3e-4, &mut moved);
             // scalar type and backend precision differ
+            // f64 backend, log-density shifted by -2.5e8 (and +3e9): |H| is huge, H - H' is not (the accept test needs the
+            // difference of the two energies in f64).  Tolerance as for student/f64: burn-autodiff's div_scalar backward
+            // multiplies by an f32 reciprocal, the gradient of this harness target is only good to 3e-8
+            record_run::<B64, f64, _>(&mut out, "student-2.5e8/f64", Own::StudentC { nu: 3.0, c: -2.5e8 }, StudentC { nu: 3.0, c: -2.5e8 }, si.clone(), eps, l, steps, seed + 303 + c as u64, 1e-7, &mut moved);
+            record_run::<B64, f64, _>(&mut out, "student+3e9/f64", Own::StudentC { nu: 3.0, c: 3e9 }, StudentC { nu: 3.0, c: 3e9 }, si.clone(), eps, l, steps, seed + 304 + c as u64, 1e-7, &mut moved);
             record_run::<B64, f32, _>(&mut out, "student/f32-on-f64", Own::Student { nu: 3.0 }, StudentT { nu: 3.0 }, si.clone(), eps, l, steps, seed + 301 + c as u64, 3e-4, &mut moved);
             record_run::<B32, f64, _>(&mut out, "student/f64-on-f32", Own::Student { nu: 3.0 }, StudentT { nu: 3.0 }, si, eps, l, steps, seed + 302 + c as u64, 3e-4, &mut moved);
         }
